@@ -8,7 +8,7 @@ import (
 
 func init() {
 	register("C08", &Property{
-		Title: "Bounds is the tight bounding box and FastBounds contains it",
+		Title:       "Bounds is the tight bounding box and FastBounds contains it",
 		Explanation: "Decides, for every path, the structural clauses of Bounds/FastBounds/Rect hulls: each accumulator returned as a low (high) side is only ever updated by math.Min (math.Max) folds that include itself; no fold nests the opposite operator; Bounds folds every segment end point into all four sides unconditionally; FastBounds folds every decoded control/end point into all four sides with min/max and X/Y candidate sets mirrored (arc: centre∓max(rx,ry)); Rect.Transform/Add/AddPoint hulls are pure and complete. A violated clause makes the box exclude a point of the path for some input. NOT decided: which Bézier/arc extrema are computed (root finding, angle tests), tightness, equivariance.",
 		Run: func(c *core.Ctx, r *core.Report) {
 			E2CarriedShadow(c, r)
@@ -21,7 +21,7 @@ func init() {
 
 func init() {
 	register("C01", &Property{
-		Title: "Boolean path operations compute the set algebra of the filled regions",
+		Title:       "Boolean path operations compute the set algebra of the filled regions",
 		Explanation: "Decides the finite tables of the boolean operations for every input that reaches them: each public wrapper passes the op constant of its name, its own operands and NonZero; SweepPoint.InResult's per-op membership expressions equal the property's truth table over (subject fills, clipping fills) on each side of an edge and an edge is kept iff filling changes; the pathOp switch is exhaustive; bentleyOttmann's four early-outs (Q empty, P empty, disjoint sub-path of P, of Q) keep an operand exactly for the ops whose truth table keeps it. NOT decided: the sweep itself, snap rounding, overlap merging, contour tracing, termination, area laws.",
 		Run: func(c *core.Ctx, r *core.Report) {
 			E9AbsorbedLink(c, r)
@@ -33,7 +33,7 @@ func init() {
 		},
 	})
 	register("C02", &Property{
-		Title: "Settle preserves the filled region and returns a canonical simple path",
+		Title:       "Settle preserves the filled region and returns a canonical simple path",
 		Explanation: "Decides: FillRule.Fills is definite on the sign×parity classes of the winding number and equals each rule's definition, with a case for all four rules; the Settle entry points pass nil, opSettle and their own fill rule to the sweep; opSettle membership is the subject's own fill on each side; settling an empty path yields the empty path. NOT decided: canonical form, hole orientation, idempotence, the sweep.",
 		Run: func(c *core.Ctx, r *core.Report) {
 			E9AbsorbedLink(c, r)
@@ -45,11 +45,12 @@ func init() {
 		},
 	})
 	register("C06", &Property{
-		Title: "Containment and winding queries agree with the path's winding number",
+		Title:       "Containment and winding queries agree with the path's winding number",
 		Explanation: "Decides: in RayIntersections the per-segment pre-filter hull is a pure Min/Max tree over start, end and every decoded control point (arc: centre∓max(rx,ry)), so no segment the ray can cross is skipped; Contains returns fillRule.Fills(n) for n from Windings(x, y); Windings/Crossings visit every element of Split(); Fills agrees with the rule definitions. NOT decided: the ray/segment case analysis at end points, horizontals and tangents, CCW, Filling's nesting logic.",
 		Run: func(c *core.Ctx, r *core.Report) {
 			E3RayImplicitClose(c, r)
 			E3RayHull(c, r)
+			E3EllipseParamAngle(c, r)
 			E9ContainsFlow(c, r)
 			E9Fills(c, r)
 		},
@@ -58,7 +59,7 @@ func init() {
 
 func init() {
 	register("C09", &Property{
-		Title: "Length, SplitAt and Reverse are consistent views of the same curve",
+		Title:       "Length, SplitAt and Reverse are consistent views of the same curve",
 		Explanation: "Decides the encoding clauses Length/SplitAt/Reverse/Split depend on, for every path: in every decoder loop of the package (incl. SplitAt, Reverse, Split, Length) a command cursor of one path only indexes that path's data; payload offsets stay inside the record of the command being decoded; every record built (incl. the ones Reverse emits) has the command at both ends and the format's length; cmdLen agrees with the format. NOT decided: quadrature, arc-length inversion, involution, winding negation.",
 		Run: func(c *core.Ctx, r *core.Report) {
 			E3ArcShortcut(c, r)
@@ -69,6 +70,7 @@ func init() {
 			E11CutCarried(c, r)
 			E11SubpathFlag(c, r)
 			E2MoveReplayed(c, r)
+			E2AccumulatorAdvance(c, r)
 		},
 	})
 }
@@ -81,7 +83,7 @@ var c17ReviewedPanics = map[string]string{}
 
 func init() {
 	register("C11", &Property{
-		Title: "Textual path formats round-trip and parsers never panic",
+		Title:       "Textual path formats round-trip and parsers never panic",
 		Explanation: "Decides, for every input string: (1) each index of the input bytes in ParseSVGPath/skipCommaWhitespace is dominated by a bound check on every path through the function (path-sensitive guard facts over the AST, short-circuit aware); the per-command number-count table fits the number buffer; (2) no explicit panic(...) in the canvas module is reachable in the VTA call graph from ParseSVGPath or ParseSVG (restricted to the import closure of package canvas, since no value of another package's type can exist in that call tree) except the reviewed sites listed in the evidence. NOT decided: round-trip equality and number minification, implicit run-time panics other than the named index guards, termination, panics inside third-party Go dependencies (font parsing, shaping).",
 		Assumptions: []string{"cursor variables are non-negative (initialised to 0 and only incremented)", "strconv.ParseFloat (tdewolff/parse) returns 0 <= n <= len(b)", "third-party dependencies are trusted not to panic"},
 		Run: func(c *core.Ctx, r *core.Report) {
@@ -97,11 +99,12 @@ func init() {
 		},
 	})
 	register("C17", &Property{
-		Title: "Line breaking returns a feasible, optimal Knuth-Plass solution",
+		Title:       "Line breaking returns a feasible, optimal Knuth-Plass solution",
 		Explanation: "Decides one clause only, 'terminates with a result for any sequence of items' in its no-panic part: every index of the caller-supplied item slice in Linebreak and the linebreaker methods is dominated by a bound check or is an index parameter whose bound is established at every call site (interprocedural index contract), and no explicit panic is reachable from Linebreak. NOT decided: legality of breakpoints, feasibility, optimality, relaxation of the tolerance, termination.",
 		Assumptions: []string{"lb.items[active.Position] (a position stored earlier from a checked index) is listed as unclassified, not decided"},
 		Run: func(c *core.Ctx, r *core.Report) {
 			E4LinebreakGuards(c, r)
+			E4AllocCoversIndex(c, r)
 			r.Rule("E4.panic-reach-linebreak", "no explicit panic(...) is reachable from text.Linebreak")
 			E4PanicReachability(c, r, "E4.panic-reach-linebreak", []*ssa.Function{c.SSAFunc("text", "Linebreak")}, c17ReviewedPanics, true)
 		},
@@ -110,7 +113,7 @@ func init() {
 
 func init() {
 	register("C13", &Property{
-		Title: "Every PDF produced is a structurally valid PDF file",
+		Title:       "Every PDF produced is a structurally valid PDF file",
 		Explanation: "Decides, for every sequence of writer calls, the structural clauses of the PDF writer: bytes reach the io.Writer only through write/writeBytes which add the returned count to pos; every 'n 0 obj' emission is immediately preceded by recording pos at index n-1; the reserved catalog/info/page-tree numbers agree with trailer Root/Info, catalog Pages and every page's Parent, and xref count == trailer Size; a stream's Length is len() of exactly the slice written between stream/endstream; the six metadata fields are stored under the key of the same name from the field of the same name; every font map in which getFont reserves a reference is written in Close with the matching vertical flag; no module type implementing an interface map key is non-comparable (or it is unwrapped before every use); the content-stream fragments form only PDF operators with balanced q/Q, BT/ET and terminated strings (abstract interpretation with inlining); every resource name given to gs/scn/SCN/Tf/Do is registered in the page's resources under the category the operator uses. NOT decided: byte-exact offsets of concrete documents, filter decodability, font program validity, the page count arithmetic.",
 		Assumptions: []string{"fmt.Fprintf writes exactly the formatted bytes and returns their count", "path data produced by Path.ToPDF is treated as an opaque, well-delimited operand sequence (its own operator arities are checked under C11/C12)"},
 		Run: func(c *core.Ctx, r *core.Report) {
@@ -134,7 +137,7 @@ func init() {
 
 func init() {
 	register("C12", &Property{
-		Title: "SVG, PDF and PostScript output encode the drawing the rasterizer renders",
+		Title:       "SVG, PDF and PostScript output encode the drawing the rasterizer renders",
 		Explanation: "Decides structural agreement among the four back-ends for every drawing: each RenderPath reads every Style field (a back-end that never reads a field cannot honour it); every explicit Dash call receives canvas.ScaleDash(style.StrokeWidth, …) like the reference rasterizer; every path serialised by ToSVG/ToPDF/ToPS/ToScanxScanner derives on every path from Transform(M) with M built from the view parameter (SVG: with the y-flip), incl. the explicit-outline fall-backs; cap/join codes per concrete Capper/Joiner type agree with the formats' tables and the even-odd marker is emitted only under FillRule == EvenOdd; the emitted PDF and PostScript fragments form only operators of the respective vocabulary with balanced save/restore (abstract interpretation with path-sensitive repeated conditions), and procedure names emitted by Path.ToPS are defined in the PS prolog. NOT decided: that an interpreter of the output paints the same pixels, gradients/patterns, text, opacity, unit factors, Positive/Negative fill rules (no back-end format has them).",
 		Assumptions: []string{"the rasterizer is the reference for dash scaling", "PS.RenderImage (binary image data) is outside the grammar rule"},
 		Run: func(c *core.Ctx, r *core.Report) {
@@ -155,7 +158,7 @@ func init() {
 
 func init() {
 	register("C10", &Property{
-		Title: "Built paths are well-formed; operations on them are total and side-effect free",
+		Title:       "Built paths are well-formed; operations on them are total and side-effect free",
 		Explanation: "Decides, for every path and argument: (1) every exported method of *Path/Paths other than the documented in-place mutators/sinks (each re-justified by its doc phrase) writes no memory reachable from its receiver or arguments — interprocedural effect analysis on SSA; the copy-on-write latch of replace is verified structurally; (2) the command encoding discipline: cmdLen vs the format, payload offsets inside the decoded record, every record built/retagged with the command at both ends; Split hands out capacity-limited sub-slices; (3) no in-place transform accumulates over loop iterations, no loop state variable is stuck at its initial constant. NOT decided: 'no zero-length segments', the geometry the builders trace, implicit run-time panics other than those named, termination.",
 		Assumptions: []string{"standard-library functions not in the mutator table are pure (listed in coverage.external_assumed)", "results of calls through function-typed parameters are fresh objects", "one reviewed call edge: Dash -> Join (reason in the checker's exception table)"},
 		Run: func(c *core.Ctx, r *core.Report) {
@@ -175,7 +178,7 @@ func init() {
 
 func init() {
 	register("C14", &Property{
-		Title: "Rasterization paints exactly the pixels inside the filled region",
+		Title:       "Rasterization paints exactly the pixels inside the filled region",
 		Explanation: "Decides, for every canvas: (1) 'rendering leaves the canvas, its paths and its gradients unchanged': RenderPath/RenderText/RenderImage of all four back-ends, Canvas.RenderTo/RenderViewTo and rasterizer.Draw write no memory reachable from the path, style (dash array, gradient stops, patterns), text, image or canvas arguments (interprocedural effect analysis on SSA with callback-invocation summaries); (2) the rasterizer reads every Style field including the fill rule; (3) every scanner emission maps coordinates as (x*dpmm, height-y*dpmm) and the image size is width x height x resolution in both constructors. NOT decided: pixel coverage, anti-aliasing, later-draws-cover-earlier, determinism of the scanner library.",
 		Assumptions: []string{"standard-library functions not in the mutator table are pure (listed in coverage.external_assumed)", "results of calls through function-typed parameters are fresh objects", "third-party Go dependencies are analysed from source, cgo is not"},
 		Run: func(c *core.Ctx, r *core.Report) {
@@ -192,7 +195,7 @@ func init() {
 
 func init() {
 	register("C15", &Property{
-		Title: "Context and Canvas apply views, coordinate systems and state as documented",
+		Title:       "Context and Canvas apply views, coordinate systems and state as documented",
 		Explanation: "Decides, for every call sequence: view helpers are exactly `view = view.Mul(Identity.<same-named op>(own parameters))` (post-multiplication) and ComposeView post-multiplies its argument; the four draw entry points assemble the same matrix CoordSystemView().Mul(view).Translate(coordView.Dot(x,y)) and compensate text/images exactly in the coordinate systems whose CoordSystemView reflects that axis; every Set*/Reset* method stores only into ContextState; Push saves and Pop restores the whole ContextState (Pop guarded, shrinking by one); Fill/Stroke clear and restore exactly the other paint; drawing does not rewrite the dash array shared with pushed states; RenderViewTo replays in sorted z-index then slice order with no renderer call inside a map range, and recording appends to the current z-index slice. NOT decided: the matrix algebra itself, Fit/Clip/Transform arithmetic, that DrawPath with several paths keeps per-path stroke state.",
 		Run: func(c *core.Ctx, r *core.Report) {
 			E11DashCover(c, r)
@@ -211,7 +214,7 @@ func init() {
 
 func init() {
 	register("C03", &Property{
-		Title: "Flattening approximates every curve within the requested tolerance",
+		Title:       "Flattening approximates every curve within the requested tolerance",
 		Explanation: "Decides the 'made only of straight segments' clause for every input and tolerance: by command-set typing over the whole package, Flatten's result can contain only MoveTo/LineTo/Close (plus such commands inherited from the receiver) and ReplaceArcs' result no ArcTo; the replace driver has the validated splice shape (each kind calls its own non-nil replacer, the record is cut before the replacement is joined, the cursor restarts at the re-attached remainder, so every remaining command passes through the switch); the consumers that rely on it (ToPDF/Tile arc panics, stride-4 scanner loops, the sweep's non-flat panic) only see such paths. NOT decided: the error bound, vertex order, same end points, termination as the tolerance goes to 0, X-monotonicity.",
 		Run: func(c *core.Ctx, r *core.Report) {
 			E10Flatness(c, r)
@@ -221,7 +224,7 @@ func init() {
 
 func init() {
 	register("C04", &Property{
-		Title: "Stroke and Offset realise exact distance offsets of the path",
+		Title:       "Stroke and Offset realise exact distance offsets of the path",
 		Explanation: "Decides one clause only, 'closed subpaths are joined, not capped' (and its dual: open sub-paths are capped iff stroking): in (*Path).offset the closed flag is set exactly by a Close command, every Capper call is control-dependent on !closed && strokeOpen and placed at the two ends, the Joiner wraps around from the last to the first segment when closed, the closed branch closes both offset curves, and Stroke/Offset pass strokeOpen true/false; plus the angle-unit consistency of the arc rotation passed to ArcTo (E8, whole package). NOT decided: every distance clause (w/2 neighbourhood, miter limit, inner-bend repair, offset direction).",
 		Run: func(c *core.Ctx, r *core.Report) {
 			E11SubpathLoops(c, r)
@@ -230,7 +233,7 @@ func init() {
 		},
 	})
 	register("C05", &Property{
-		Title: "Dashing cuts the path by arc length according to the pattern",
+		Title:       "Dashing cuts the path by arc length according to the pattern",
 		Explanation: "Decides two structural clauses: (1) 'independently for every subpath': in Dash the only variable carried across iterations of the sub-path loop is the output accumulator and every iteration restarts from (i0, pos0); (2) pieces cut by SplitAt are made relative to the previous cut in every curve case (E11.cut-carried), read the sub-path's own data (E2 cursor domain) and keep the arc rotation in consistent units (E8). NOT decided: every arithmetic clause (phase, period, offsets, arc-length inversion, piece order, joining of closed sub-paths, degenerate patterns). Argument mutation by Dash is decided under C10/C15.",
 		Run: func(c *core.Ctx, r *core.Report) {
 			E11DashPeriod(c, r)
@@ -239,6 +242,7 @@ func init() {
 			E11DashParity(c, r)
 			E11DashIndependence(c, r)
 			E11CutCarried(c, r)
+			E2AccumulatorAdvance(c, r)
 			E2CursorDomain(c, r, map[string]bool{"Path.SplitAt": true, "Path.Dash": true, "Path.Length": true, "Path.Split": true})
 			E8Units(c, r)
 		},
@@ -247,7 +251,7 @@ func init() {
 
 func init() {
 	register("C18", &Property{
-		Title: "Embedded fonts and glyph paths reproduce the laid-out text",
+		Title:       "Embedded fonts and glyph paths reproduce the laid-out text",
 		Explanation: "Decides three structural clauses: (1) 'the glyph subsetter assigns each used glyph one stable code with .notdef at zero' — the constructor and Get/List have exactly the hit/miss/append shape, and the PDF writer creates a font's subsetter only when the font has none (a second writing direction must not reset the codes already written); (2) fonts used for vertical text are kept in their own map and written with the matching vertical flag (Identity-V vs Identity-H), every font map that reserves an object is written in Close, and every Tf operand names a font registered in the page's resources (E5 font-map and resource rules). NOT decided: outlines, advances, the W array, ToUnicode contents, glyph placement in toPath.",
 		Run: func(c *core.Ctx, r *core.Report) {
 			E11Subsetter(c, r)
@@ -260,7 +264,7 @@ func init() {
 		},
 	})
 	register("C19", &Property{
-		Title: "Imported SVG documents draw the geometry the SVG specifies",
+		Title:       "Imported SVG documents draw the geometry the SVG specifies",
 		Explanation: "Decides the unit and coverage tables of the importer for every document: parseDimension's factors equal the CSS absolute-unit and angle tables (constant folding); the canvas size is in millimetres on every branch (explicit width/height and viewBox fallback use the same px→mm factor) and init uses the inverse factor, the y-down coordinate system and the size/viewBox user-unit scale (px→mm without a viewBox); drawShape has a case for each basic shape; the path data parser's index guards and explicit-panic freedom are decided under C11. NOT decided: styling precedence, CSS selectors, transform order, per-element geometry, the write/read round trip.",
 		Run: func(c *core.Ctx, r *core.Report) {
 			E11SVGTransformTable(c, r)
@@ -276,7 +280,7 @@ func init() {
 
 func init() {
 	register("C16", &Property{
-		Title: "Text layout places every character once, inside the box, on ordered lines",
+		Title:       "Text layout places every character once, inside the box, on ordered lines",
 		Explanation: "Decides two structural clauses. (1) the structural part of 'lines are stacked monotonically by their line heights … Text.Bounds/Heights enclose all spans': a line's top/ascent/descent/bottom are pure component-wise math.Max folds over its spans (each accumulator folded with the same-named component of FontFace.heights(), inline objects' ascent/descent feeding the right pair), and Text.Heights combines the first line's ascent with the last line's descent. (2) a necessary condition of 'right-aligned lines end at the width, centred lines are centred, no line extends beyond the box unless Overflows is reported': the width the line breaker records for a feasible break includes the width of the penalty (the hyphen shown at the break), by the same guarded addition the fitting computation uses. NOT decided: everything else — that every character appears exactly once and in order, glyph/byte index bookkeeping, glue stretching, alignment, bidi reordering, Overflows, which are arithmetic over runtime arrays with no structural clause.",
 		Run: func(c *core.Ctx, r *core.Report) {
 			E3LineHeights(c, r)
@@ -284,6 +288,7 @@ func init() {
 			E11SpanShift(c, r)
 			E11GlyphCursor(c, r)
 			E11ItemsCoverGlyphs(c, r)
+			E11HyphenGuard(c, r)
 		},
 	})
 }
@@ -313,7 +318,7 @@ func c20APIRoots(c *core.Ctx) []*ssa.Function {
 
 func init() {
 	register("C20", &Property{
-		Title: "Concurrent use on independent objects is race-free and deterministic",
+		Title:       "Concurrent use on independent objects is race-free and deterministic",
 		Explanation: "Decides, for every schedule and history: (1) no package-level variable of the module is stored outside package initialisation except inside a sync.Once/OnceFunc body, with the mutex of the same variable held (dominating Lock, no intervening Unlock), or through sync/atomic, and mutex-protected variables are also read under the mutex; (2) every function that reads the once-initialised pool variables is reachable from the concurrent API set only through a function whose once-call dominates all its other calls; (3) every object taken from a sync.Pool is completely overwritten or has every field stored before its first other use (no state carried between calls); (4) every range over a map in the module is order-independent by construction (collect-then-sort, commutative reductions, per-entry updates, total-order arg-best) or is a reviewed/known entry. NOT decided: races inside third-party packages, use-after-Put of pooled objects, writes through shared *Font objects (see E1 when wired), the naming of unnamed fonts by a global counter (inherent to the API).",
 		Assumptions: []string{"sync, sync/atomic behave as documented", "the API set is the one listed in DESIGN.md §3 C20"},
 		Run: func(c *core.Ctx, r *core.Report) {
@@ -333,7 +338,7 @@ func init() {
 
 func init() {
 	register("C07", &Property{
-		Title: "Affine transformation of a path transforms every point of it",
+		Title:       "Affine transformation of a path transforms every point of it",
 		Explanation: "Decides one clause for every path and matrix: the rotation of elliptical arcs is handled in consistent angle units through Transform, Matrix.Rotate, Join, Reverse, the scanners and the arc helpers — a whole-package unit inference (radians/degrees) over SSA finds no value used in both units, the rotation slot of arc records is radians everywhere it is read or written, and the documented units of ArcTo/Arc/Matrix.Rotate (degrees) are reproduced. A missing or doubled conversion is invisible to tests whose arcs have rotation 0. NOT decided: the matrix algebra (Mul/Dot/Inv/T/Decompose), the eigen-decomposition in Transform, the sweep flip under reflection, which points a transformed segment contains.",
 		Assumptions: []string{"unit seeds: math trigonometric functions take/return radians; x*180/π and x*π/180 are the only conversions", "values multiplied by non-constant factors get a fresh unit variable (no false conflicts from scalars)"},
 		Run: func(c *core.Ctx, r *core.Report) {
